@@ -225,8 +225,8 @@ func init() {
 func init() {
 	reg(&propCfg{
 		ID:      "C16",
-		Pkgs:    []string{"bill"},
-		Lenient: []string{"bill", "tax", "cbc", "org", "num", "cal", "head", "uuid"},
+		Pkgs:    []string{"bill", "."},
+		Lenient: []string{"bill", "tax", "cbc", "org", "num", "cal", "head", "uuid", ".", "schema", "dsig"},
 		Stages:  []stage{{Name: "correct-replicate", Harness: `^H_C16_`}},
 		Functions: []string{"bill.(*Invoice).Correct", "bill.(*Invoice).validatePrecedingData", "bill.(*Invoice).correctionDef", "bill.prepareCorrectionOptions", "bill.WithReason/WithStamps/WithSeries/WithIssueDate/WithExtension", "bill.Credit/Debit/Corrective",
 			"head.WithHead", "bill.(*Invoice).Replicate", "tax.(*CorrectionDefinition).Merge", "cbc.Key.In"},
